@@ -203,7 +203,7 @@ class H:
         types = [TYPES[t] if isinstance(t, str) and t in TYPES else t for t in spec.get("types", [])]
         bad = spec.get("bad")
         if types:
-            value: Any = self.newval("v")
+            value: Any = self.newval("v", rtypes.FalsyVal if spec.get("falsy") else rtypes.Val)
         else:
             cls = TYPES[spec.get("cls", "A")]
             value = self.newval("v", cls if isinstance(cls, type) else rtypes.A)
@@ -268,7 +268,7 @@ class H:
         h = self
 
         def produce() -> Any:
-            v = h.newval(f"g_{fid}_")
+            v = h.newval(f"g_{fid}_", rtypes.FalsyVal if spec.get("falsy") else rtypes.Val)
             return v
 
         if kind == "sync":
@@ -592,6 +592,8 @@ def oracle(sim: Sim, plan: dict) -> list[dict]:
     task_fac: dict[str, list] = {}  # task -> stack of (fid, ctx, lid)
     obs_events: dict[str, list] = {}
     td_runs: dict[str, list] = {}
+    td_stack: dict[str, list] = {}
+    td_popped: dict[str, set] = {}
     muts: dict[str, int] = {}  # ctx -> number of model mutations so far
 
     def mutated(cid: str) -> None:
@@ -902,6 +904,16 @@ def oracle(sim: Sim, plan: dict) -> list[dict]:
             obs_events.setdefault(d["ctx"], []).append(d)
         elif kind == "td_run":
             td_runs.setdefault(d["ctx"], []).append(d["td"])
+            m = M.get(d["ctx"])
+            if m is not None:
+                # teardown callbacks form a stack; ones registered during teardown go on top
+                st = td_stack.setdefault(d["ctx"], [])
+                pending = [t for t in m.tds if t not in td_popped.setdefault(d["ctx"], set())]
+                if d["td"] not in m.tds:
+                    v("C03.atomic", "td_of_failed_add", f"context {d['ctx']}: teardown callback {d['td']} of an add that failed was run")
+                elif not pending or pending[-1] != d["td"]:
+                    v("C03.teardown", "td_order", f"context {d['ctx']}: teardown callback {d['td']} ran, the most recently registered pending one is {pending[-1] if pending else None}")
+                td_popped.setdefault(d["ctx"], set()).add(d["td"])
         elif kind == "warning":
             v("C04.asyncerror", "never_awaited", f"coroutine never awaited warning: {d['msg']}")
         elif kind == "note" and d.get("what") == "drain_failed":
@@ -931,15 +943,11 @@ def oracle(sim: Sim, plan: dict) -> list[dict]:
         for e in obs_events.get(cid, []):
             if e["source"] != cid or e["topic"] != "resource_added":
                 v("C18.events", "source", f"event on {cid} has source {e['source']} topic {e['topic']}")
-        want_td = list(reversed(m.tds))
         got_td = td_runs.get(cid, [])
-        if got_td != want_td:
-            rogue = [t for t in got_td if t not in m.tds]
-            v(
-                "C03.atomic" if rogue else "C03.teardown",
-                "td_of_failed_add" if rogue else "td_order",
-                f"context {cid}: teardown callbacks run {got_td}, expected {want_td}",
-            )
+        never = [t for t in m.tds if t not in got_td]
+        twice = sorted({t for t in got_td if got_td.count(t) > 1})
+        if never or twice:
+            v("C03.teardown", "td_count", f"context {cid}: teardown callbacks never run {never}, run twice {twice}")
     return V
 
 
@@ -990,12 +998,16 @@ class G:
         if op == "add":
             types = self.types() if rng.random() < 0.75 else []
             spec: dict[str, Any] = {"types": types, "name": rng.choice(self.names)}
+            if types and rng.random() < 0.2:
+                spec["falsy"] = True
             if not types:
                 spec["cls"] = rng.choice([t for t in self.tn if t != "L"] or ["A"])
             if rng.random() < 0.3:
                 spec["td"] = True
                 if rng.random() < 0.35:
                     spec["late_add"] = {"types": self.types(0.2), "name": rng.choice(self.names), "desc": "late"}
+                    if rng.random() < 0.5:
+                        spec["late_add"]["td"] = True
             if rng.random() < 0.2:
                 spec["desc"] = f"d{rng.randint(1, 9)}"
             if rng.random() < 0.3:
@@ -1022,6 +1034,8 @@ class G:
                     spec["wrap"] = rng.choice(("lambda", "callable"))
             if rng.random() < 0.15:
                 spec["raises"] = "notfound" if rng.random() < 0.4 else True
+            if rng.random() < 0.2:
+                spec["falsy"] = True
             r = rng.random()
             if r < 0.25:
                 spec["annot"] = rng.choice(("union", "pep604"))
